@@ -109,6 +109,23 @@ CHECKS = {
    tech="static analysis: interprocedural alias/effect analysis over SSA, mod-sets, determinism idiom recognition"),
 }
 
+# rules added during the seeded-variant rounds (DESIGN.md 8.3, 8.7)
+EXTRA = {
+ "C01": " Also: totality on the domain (no failure exit of EncodeEncrypt/encryptMsg/DecodeDecrypt/decryptMsg is reachable for a fully keyed SA, an encodable message and a genuine datagram; length tests refuted by linear arithmetic over the SK body shape IV|>=1 block|checksum) and Reset-before-Write typestate of calculateIntegrity.",
+ "C03": " Also: nested records behind an interface field occupy the same span under the same conditions on both sides; the decoder rejects on the value of a message field only where the encoder refuses that value too or the field is structural (value-guard agreement); AKA' words-to-octets scaling evaluated without wrap-around for the domain.",
+ "C05": " Also: nested-dispatch span vs the reference; AKA' words-to-octets scaling without wrap-around.",
+ "C06": " Also: totality on the domain of the protect/unprotect path (an empty inner payload list and every legal length are accepted).",
+ "C07": " Also: totality on the domain: every failure exit of GenerateKeyForIKESA / NewIKESAKey (through PrfPlus and NewCrypto) is unreachable for nonces and secrets of 1..512 octets and a complete registered suite.",
+ "C08": " Also: totality on the domain: every failure exit of GenerateKeyForChildSA is unreachable for any nonce (including empty), with or without integrity.",
+ "C11": " Also: every registry lookup in the SA constructors is controlled only by nil tests and list lengths, never by the content of the transform being looked up.",
+ "C12": " Also: nested-dispatch conditions agree on both sides; the AKA' encoder pads to the declared attribute length.",
+ "C14": " Also: the setter accepts every value size of the domain (RAND/AUTN/MAC 16, KDF 2, RES 4..16, KDF_INPUT 0..300, CHECKCODE 0/20/32: no error exit reachable, by linear arithmetic per instance); nested-dispatch; value-guard agreement; words-to-octets scaling.",
+ "C15": " Also: totality on the domain: no failure exit of CalcEapAkaPrimeAtMAC (through initMAC/SetAttr/setAttr with a 16-octet value) is reachable for any subtype, attribute subset and key.",
+ "C20": " Also: header bookkeeping fields are stored on every path before they are read (no value left by an earlier Decode/Encode reaches the output).",
+}
+THOROUGH = " Thorough tier: additionally replays every seeded faulty variant of this property (seeded/<id>-*) on a scratch copy of the current tree and requires it to be reported (exit 2 'SENSITIVITY-LOST' otherwise)"
+BCE = "; and cross-checks the prover's site enumeration against the compiler's unproven bounds checks (-d=ssa/check_bce)"
+
 REASON_WIP = "check under construction in this build round (static rules designed in DESIGN.md section 4, not yet registered)"
 NA = {}
 
@@ -125,8 +142,8 @@ def main():
             "evidence_file": f"evidence/{pid}.json",
             "replay_cmd_template": "./bin/ikelint -explain {path}",
             "engine": "ikelint",
-            "level_claimed": {"category": c["cat"], "text": c["text"], "design_ref": c["ref"]},
-            "level_note": c["note"],
+            "level_claimed": {"category": c["cat"], "text": c["text"] + EXTRA.get(pid, ""), "design_ref": c["ref"] + ", 8"},
+            "level_note": c["note"] + THOROUGH + (BCE if pid in ("C02", "C04", "C10") else "") + ".",
             "technique": c["tech"],
         })
     m = {
@@ -138,7 +155,7 @@ def main():
                      "kind_free_text": "repository-specific static analyser over go/types + go/ssa (x/tools v0.29.0): wrap-aware linear-form bounds prover, effect/alias analysis, ordering/typestate rules, wire-slot tables, registry/constant tables"}],
         "checks": checks,
         "not_applicable": [{"property_id": p, "reason": NA.get(p, REASON_WIP)} for p in props if p not in CHECKS],
-        "notes": "Static-analysis family only; nothing executes code of /repo. See DESIGN.md.",
+        "notes": "Static-analysis family only; nothing executes code of /repo (the thorough tier runs the Go compiler with a diagnostic flag and re-runs the analyser on scratch copies). run.sh first self-tests the engines on /verif/fixtures (exit 2 on failure). known_findings.json: 13 fixed entries, 1 known entry (C15, D15). See DESIGN.md, in particular section 8 (as built).",
     }
     json.dump(m, open(os.path.join(HERE, 'MANIFEST.json'), 'w'), indent=1)
     print("claimed:", sorted(CHECKS))
